@@ -252,6 +252,9 @@ def operand_exprs(facts, tsite, words):
 def classify_flow(case, facts, graphs, rules, flow, ops, tainted_ops=None, id_clash=False):
     """-> list of (sig, what) for one reported flow.  tainted_ops: the operands of the sink statement that carried the
     tag inside lian (observed by wrapping the sink check), or None."""
+    tg.PREFERRED_RELAX = [f for f in ("lang", "line_num", "unit_name", "operation", "name~")
+                          if any(e.get("status") == "open" and len(e.get("signature", [])) == 5 and e["signature"][1] == "rule"
+                                 and e["signature"][4] == f for e in common.load_known(ID))]
     graph = graphs.get()
     j = tg.justify(facts, graph, rules, flow)
     out = []
